@@ -252,6 +252,30 @@ def run(tier="quick", seed=0, jobs=16):
             if sig not in fg_bad or ex["n"] < fg_bad[sig]["n"]:
                 fg_bad[sig] = ex
     rep.bounded["fg_id_numpy_exhaustive"] = {"evaluations": fg_eval, "distinct_nontrivial": fg_struct, "rule": f"all typed pointer structures up to isomorphism with <= {nmax} persons, <= 2 households (roles adult/young adult/child; symmetric partner matchings; parents among older roles; two p_id labellings, one with p_id 0 as the first adult) x ALL row orders; oracle specs/groupings_spec.expected_fg", "failure_classes": sorted(fg_bad), "exhaustive": True, "seconds": round(time.time() - t0, 1)}
+    # randomly beyond five persons (seeded)
+    import random as _r
+
+    from _gettsim import groupings as g_
+
+    rng = _r.Random(seed)
+    n_rand = 0
+    for _ in range(300 if tier == "quick" else 4000):
+        n = rng.randint(6, 8)
+        d = gs.random_structure(n, rng)
+        if d is None:
+            continue
+        exp = gs.expected_fg(d["p_id"], d["hh_id"], d["alter"], d["p_id_einstandspartner"], d["p_id_elternteil_1"], d["p_id_elternteil_2"])
+        for _k in range(6):
+            perm = tuple(rng.sample(range(n), n))
+            dd = gs.permute(d, perm)
+            ids = g_.fg_id_numpy(dd["p_id"], dd["hh_id"], dd["alter"], dd["p_id_einstandspartner"], dd["p_id_elternteil_1"], dd["p_id_elternteil_2"])
+            n_rand += 1
+            got = gs.perm_partition(gs.partition_of(ids), perm)
+            if got != exp:
+                sig = "random:" + _fg_signature(d, exp, got)
+                if sig not in fg_bad:
+                    fg_bad[sig] = {"kernel": "fg_id_numpy", "inputs": {k: v.tolist() for k, v in dd.items()}, "got": sorted(map(sorted, got)), "expected": sorted(map(sorted, exp)), "row_order": list(perm), "n": n}
+    rep.bounded["fg_id_numpy_random"] = {"evaluations": n_rand, "distinct_nontrivial": n_rand // 6, "rule": "seeded random unambiguous structures with 6-8 persons, up to 3 households, random p_id labels, 6 random row orders each; distinct = structures"}
     rep.functions.add("src/_gettsim/groupings.py:101 fg_id_numpy (bounded exhaustive, not proved)")
     for b in bad + bad2:
         rep.violation(f"{b['kernel']}:spec-mismatch", f"{b['kernel']} on {b['inputs']} gives {b['got']}, expected {b.get('expected')}", b, True)
